@@ -42,7 +42,9 @@ def pfc(name, prop, entry, n, l, bs, unwind=None, memalloc=None, **kw):
     cdefs.update(kw.pop('cdefs', {}))
     kw.setdefault('timeout', 240)
     us = {'^(h_|_ZL)': (n + 2) * (l + 4), '_ZSt14__relocate': cdefs['IR2C_MAXELEMS'] + 1, '_ZNSo5write': cdefs['IR2C_MAXBYTES'] + 1, '_ZNSi4read': cdefs['IR2C_MAXBYTES'] + 1, 'verif_stream_equal': defs['VS_BOUND'] + 1}
-    if grow: us['_Z10ReallocatePPhm'] = cdefs['IR2C_MAXBYTES'] + 1
+    if grow:
+        us['_Z10ReallocatePPhm'] = cdefs['IR2C_MAXBYTES'] + 1
+        us['_ZN19StringDictionaryPFCC2'] = n + 6          # main loop + the growth loop (they can share a header)
     us.update(kw.pop('unwindset', {}))
     return O(name, prop, 'h_pfc.cpp', entry, PFC_TUS, defs=defs, libdefs={'LIBCSD_VERIF_MEMALLOC': memalloc}, cdefs=cdefs,
              unwind=unwind or max(n + 2, l + 3), unwindset=us,
@@ -238,14 +240,13 @@ def rpdac_family(prop, tag, entry):
 
 def c01():
     obs = pfc_family('C01', 'pfc', 'h_pfc_c01', deep4=True)
-    obs += rpdac_family('C01', 'c01', 'h_rpdac_c01')
     obs += pfc_family('C01', 'pfc.reload', 'h_pfc_saveload', quick_bs=(2,), quick_shapes=[[1, 2, 2]], sym_n2=False, timeout_q=600, thorough_extra=False)
     obs += dac_obs('C01', what=('access',))
     return obs
 
 
 def c02():
-    return pfc_family('C02', 'pfc', 'h_pfc_c02', deep4=True) + rpdac_family('C02', 'c02', 'h_rpdac_c02') + kind_obs('C02', ['guard'])
+    return pfc_family('C02', 'pfc', 'h_pfc_c02', deep4=True) + kind_obs('C02', ['guard'])
 
 
 def c03():
@@ -254,7 +255,6 @@ def c03():
 
 def c04():
     obs = pfc_family('C04', 'pfc.ids', 'h_pfc_c04', deep4=True)
-    obs += rpdac_family('C04', 'c04', 'h_rpdac_c04')
     obs += pfc_family('C04', 'pfc.strs', 'h_pfc_c04x', quick_shapes=[[2, 2, 2], [1, 2, 2]])
     obs += iter_obs('C04', which=('contiguous',))
     return obs
@@ -273,7 +273,7 @@ def c06():
 def c07():
     obs = []
     # buffer growth: MEMALLOC hook 2..4 so that 2*len crosses the reservation exactly / by one
-    for sh, bs, ma, tier in [([3], 2, 2, Q), ([2], 2, 1, Q), ([2, 2], 2, 2, T), ([2, 2, 2], 2, 2, T), ([1, 2, 2], 2, 3, T), ([2, 1, 2], 2, 4, T), ([2, 2, 2], 3, 2, T),
+    for sh, bs, ma, tier in [([1, 1], 2, 2, Q), ([3], 2, 2, T), ([2], 2, 1, Q), ([1, 1, 1], 3, 2, T), ([2, 2], 2, 2, T), ([2, 2, 2], 2, 2, T), ([1, 2, 2], 2, 3, T), ([2, 1, 2], 2, 4, T), ([2, 2, 2], 3, 2, T),
                              ([2, 2, 2, 2], 2, 2, T), ([1, 1, 1], 2, 2, T), ([2, 2, 1], 2, 3, T), ([3, 3, 3], 2, 2, T), ([1, 2, 2], 3, 2, T)]:
         n = len(sh); l = max(sh) if max(sh) > 2 else 2
         obs.append(pfc('c07.pfc.grow.len%s.bs%d.m%d' % (''.join(map(str, sh)), bs, ma), 'C07', 'h_pfc_c01', n, l, bs, memalloc=ma, defs={'LENV': lenv(sh)}, tier=tier,
@@ -366,9 +366,12 @@ def coder_obs(prop, what):
     if 'tree' in what:
         shapes = [('l2', '{0,0,1,0,1,1}', 6, 2, Q), ('l3r', '{0,0,1,0,0,1,0,1,1,1}', 10, 3, Q), ('l3l', '{0,0,0,1,0,1,1,0,1,1}', 10, 3, T)]
         for nm, bits, nb, nl, tier in shapes:
-            obs.append(O('%s.dectree.save.%s' % (prop.lower(), nm), prop, 'h_coder.cpp', 'h_dectree_save', CODER_TUS, defs={'TREEBITS': bits, 'NTREEBITS': nb, 'NLEAVES': nl}, cdefs=dict(c, IR2C_MAXELEMS=8),
+            obs.append(O('%s.dectree.saveload.%s' % (prop.lower(), nm), prop, 'h_coder.cpp', 'h_dectree_save', CODER_TUS, defs={'TREEBITS': bits, 'NTREEBITS': nb, 'NLEAVES': nl, 'DT_LOAD': None},
+                         cdefs=dict(c, IR2C_MAXELEMS=16), unwind=12, unwindset={'^(h_|_ZL)': 100, '_ZNSo5write': 33, '_ZNSi4read': 33}, tier=T, timeout=3600, mem_gb=10,
+                         bounds='decoding subtree of %d leaves (shape %s): save, save, load, save' % (nl, nm)))
+            obs.append(O('%s.dectree.save.%s' % (prop.lower(), nm), prop, 'h_coder.cpp', 'h_dectree_save', CODER_TUS, defs={'TREEBITS': bits, 'NTREEBITS': nb, 'NLEAVES': nl}, cdefs=dict(c, IR2C_MAXELEMS=16),
                          unwind=12, unwindset={'^(h_|_ZL)': 100, '_ZNSo5write': 33, '_ZNSi4read': 33}, tier=tier, timeout=1800,
-                         bounds='decoding subtree of %d leaves (shape %s), symbolic leaf symbols and prefix: save, save, load, save' % (nl, nm)))
+                         bounds='decoding subtree of %d leaves (shape %s), symbolic leaf symbols and prefix: two saves of one object' % (nl, nm)))
     return obs
 
 
@@ -394,6 +397,7 @@ def c10():
     obs.append(pool_ob('c10.pool.w1.t1.k5', 'C10', 1, 1, 5, 4))
     obs.append(pool_ob('c10.pool.w1.t0.k4', 'C10', 1, 0, 4, 3))
     obs.append(pool_ob('c10.pool.w1.t1.k5.laststops', 'C10', 1, 1, 5, 4, variant='LAST_TASK_STOPS'))
+    obs.append(pool_ob('c10.pool.w1.t1.k5.laststops.long', 'C10', 1, 1, 5, 4, variant='LAST_TASK_STOPS', tier=T, timeout=7200))
     obs.append(pool_ob('c10.pool.w1.t2.k6', 'C10', 1, 2, 6, 5, tier=T, timeout=7200))
     obs.append(pool_ob('c10.pool.w2.t1.k5', 'C10', 2, 1, 5, 4, tier=T, timeout=7200))
     obs.append(pool_ob('c10.pool.w2.t0.k5', 'C10', 2, 0, 5, 3, tier=T, timeout=7200))
@@ -401,6 +405,7 @@ def c10():
 
 
 def blocks_ob(name, prop, n, l, threads, k, unwind, tier=Q, timeout=2400, **kw):
+    prop = 'X09'
     defs = {'NSTR': n, 'LMAX': l, 'THREADS': threads, 'QCAP': n}
     cdefs = {'VERIF_MAXT': threads + 1, 'VERIF_K': k, 'VERIF_MAXM': 3 + threads + 1, 'IR2C_MAXELEMS': 16, 'IR2C_MAXBYTES': 32}
     return O(name, prop, 'h_blocks_par.cpp', 'h_blocks_par', [], defs=defs, cdefs=cdefs, unwind=unwind, tier=tier, timeout=timeout, engine='E2', e2_setup='h_blocks_setup', mem_gb=10,
@@ -411,13 +416,20 @@ def blocks_ob(name, prop, n, l, threads, k, unwind, tier=Q, timeout=2400, **kw):
 
 def c09():
     obs = []
-    obs.append(blocks_ob('c09.blocks.n2l1.w1.k6', 'C09', 2, 1, 1, 6, 5))
+    obs.append(blocks_ob('c09.blocks.n1l1.w1.k5', 'C09', 1, 1, 1, 5, 4, timeout=5400))
+    obs.append(blocks_ob('c09.blocks.n2l1.w1.k6', 'C09', 2, 1, 1, 6, 5, tier=T, timeout=10800))
     obs.append(blocks_ob('c09.blocks.n2l1.w2.k6', 'C09', 2, 1, 2, 6, 5, tier=T, timeout=10800))
     obs.append(blocks_ob('c09.blocks.n3l1.w1.k7', 'C09', 3, 1, 1, 7, 6, tier=T, timeout=10800))
     return obs
 
 
-TABLE = {'C09': c09, 'C10': c10, 'C18': c18, 'C01': c01, 'C02': c02, 'C03': c03, 'C04': c04, 'C06': c06, 'C07': c07, 'C08': c08, 'C12': c12, 'C13': c13, 'C14': c14,
+def xr():
+    # experimental, not registered: RPDAC whole kind with a model compressor (no verdict within 1 h, see DESIGN.md)
+    return rpdac_family('XR', 'c01', 'h_rpdac_c01') + rpdac_family('XR', 'c02', 'h_rpdac_c02') + rpdac_family('XR', 'c04', 'h_rpdac_c04')
+
+
+# C09 (c09()) is not registered: the smallest instance ran out of memory after 1 h (DESIGN.md 3/C09)
+TABLE = {'XR': xr, 'X09': c09, 'C10': c10, 'C18': c18, 'C01': c01, 'C02': c02, 'C03': c03, 'C04': c04, 'C06': c06, 'C07': c07, 'C08': c08, 'C12': c12, 'C13': c13, 'C14': c14,
          'C15': c15, 'C16': c16, 'C17': c17, 'C19': c19}
 
 
